@@ -55,6 +55,7 @@ def check(ctx):
     ctx.run(r11_6, m)
     ctx.run(r11_4_worker, m)
     ctx.run(r11_5_batches, m)
+    ctx.run(r11_7, m, _independent=True)
     ctx.not_decided += [
         "multiprocessing.Queue delivers every item of a producer exactly once and in FIFO order (trusted)",
         "operating-system scheduling itself; a worker dying while holding the queue's internal lock (inside CPython)",
@@ -586,3 +587,47 @@ def r11_6(ctx, m):
             if facts.get("alive_any") is True and p.term != "continue":
                 bad = (p, f"a worker is still alive but the path ends in '{p.term}' instead of going back to the read")
         ctx.check(bad is None, "R11.6", L.where(), "after a timed-out read the parent keeps waiting while any worker is alive and gives up only when none is", key_of(pf, f"wait-while-alive:{norm(L.node.test)}:{bad[1][:40] if bad else ''}"), handler_paths=n, **({"path": bad[0].show(), "why": bad[1]} if bad else {}))
+
+
+def r11_7(ctx, m):
+    """One queue item is one output line: the text of every ranked item the worker puts ends with a newline (the parent writes
+    the items one after the other with nothing in between, so an item without its line end is glued to the next record)."""
+    from .. import tmpl
+    from ..core import reaching_def
+
+    wf = m.worker
+    n = 0
+    for c in walk_own(wf.node):
+        if not (isinstance(c, ast.Call) and isinstance(c.func, ast.Attribute) and c.func.attr == "put" and c.args):
+            continue
+        item = c.args[0]
+        if isinstance(item, ast.Constant) and item.value is None:
+            continue  # the sentinel
+        text = None
+        if isinstance(item, ast.Call) and len(item.args) >= 2:
+            text = item.args[-1]  # PriorityAlignment(rank, text)
+        elif isinstance(item, ast.Tuple) and len(item.elts) >= 2:
+            text = item.elts[-1]
+        if text is None:
+            raise AnalysisError("R11.7", wf.where(c), f"cannot find the text of the item put on the queue (`{norm(item)[:50]}`)")
+        n += 1
+        e = text
+        st = next((s_ for s_ in walk_stmts(wf.node.body) if not isinstance(s_, (ast.If, ast.For, ast.While, ast.With, ast.Try)) and any(x is c for x in ast.walk(s_))), None)
+        for _ in range(3):
+            if isinstance(e, ast.Name) and st is not None:
+                d = reaching_def(wf.node, st, e.id)
+                if d is None:
+                    break
+                e = d
+        try:
+            parts = tmpl.of_expr(e)
+        except tmpl.TemplateError:
+            parts = None
+        ends_nl = bool(parts) and parts[-1][0] == "lit" and parts[-1][1].endswith("\n")
+        if ends_nl:
+            ctx.holds("R11.7", wf.where(c), "the text of a queued item ends with its line end")
+        elif isinstance(e, ast.Call) and isinstance(e.func, ast.Name) and e.func.id in ("str", "repr", "format") or (parts and parts[-1][0] in ("hole", "rep") and not any(x[0] == "opaque" for x in parts)):
+            ctx.violated("R11.7", wf.where(c), f"the worker queues `{norm(text)[:60]}` without a line end: the parent writes the items back to back, so this record and the next one end up on one line (one record fewer for every reader, and no final newline when it is the last)", key_of(wf, f"item-without-newline:{norm(text)[:40]}"))
+        else:
+            raise AnalysisError("R11.7", wf.where(c), f"cannot decide whether the queued text `{norm(text)[:50]}` ends with a newline")
+    ctx.require_count("R11.7", n, 2, wf.where(), "ranked items put by the worker (pass-through and realigned)")
